@@ -17,6 +17,7 @@ package matchprop
 
 import (
 	"sort"
+	"strconv"
 	"strings"
 
 	pb "github.com/openconfig/gnmi/proto/gnmi"
@@ -38,15 +39,36 @@ const (
 	ClassStaleAfterEnd = "multi-path-subscription-stale-after-end"
 )
 
-const sep = "\x00"
-
-func key(p []string) string { return strings.Join(p, sep) }
+// key is an INJECTIVE encoding of an index path (every element is written as
+// "<length>:<bytes>"), so that the model never confuses two paths whatever
+// characters their elements contain: elements with '/', ':', NUL or the empty
+// string are part of the generated alphabet, and a key made by joining with a
+// separator would identify ["a/b"] with ["a","b"].
+func key(p []string) string {
+	var b strings.Builder
+	for _, e := range p {
+		b.WriteString(strconv.Itoa(len(e)))
+		b.WriteByte(':')
+		b.WriteString(e)
+	}
+	return b.String()
+}
 
 func unkey(k string) []string {
-	if k == "" {
-		return []string{}
+	out := []string{}
+	for len(k) > 0 {
+		i := strings.IndexByte(k, ':')
+		if i < 0 {
+			panic("matchprop: malformed path key " + strconv.Quote(k))
+		}
+		n, err := strconv.Atoi(k[:i])
+		if err != nil || n < 0 || i+1+n > len(k) {
+			panic("matchprop: malformed path key " + strconv.Quote(k))
+		}
+		out = append(out, k[i+1:i+1+n])
+		k = k[i+1+n:]
 	}
-	return strings.Split(k, sep)
+	return out
 }
 
 // Compatible is the relation of the property statement: the two paths agree
